@@ -262,6 +262,156 @@ theorem C12_unpatched_basic_auth_unthrottled :
     (basicAuthX true st2 t r true).2.evals = st2.evals := by
   decide
 
+/-- **Every password evaluation is throttled.**  Whatever operation a request
+amounts to (`authOp`: the first `agh_session` cookie if there is one —
+`Authorization` is then ignored —, else parsable Basic credentials, else
+nothing; or the login form): the evaluation counter moves only in a login-form
+or Basic-credentials step, only by one, only when the limiter — if configured —
+has just been asked about the request's address and did not block it, and the
+same step counts the failure or clears the count for that address.  No path
+of the model evaluates a password without check-before and inc/remove-after. -/
+theorem C12_every_evaluation_is_throttled (st : St) (now : Nat) (o : Op) :
+    (step st now o).2.evals = st.evals ∨
+    ((step st now o).2.evals = st.evals + 1 ∧
+     ∃ req, ((∃ g u, o = .login req g u) ∨ (∃ g, o = .basic req g)) ∧
+       ∀ l, st.rl = some l → ¬ (l.check req.peer now).1 > 0 ∧
+         ((step st now o).2.rl = some ((l.check req.peer now).2.inc req.peer now) ∨
+          (step st now o).2.rl = some ((l.check req.peer now).2.remove req.peer))) := by
+  cases o with
+  | login req good user =>
+    simp only [step, handleLogin_eq]
+    cases hrl : st.rl with
+    | none =>
+      right
+      rw [login_none hrl]
+      refine ⟨by cases good <;> rfl, req, Or.inl ⟨good, user, rfl⟩, fun l hl => by cases hl⟩
+    | some l =>
+      by_cases hleft : (l.check req.peer now).1 > 0
+      · left; rw [login_blocked hrl hleft]
+      · right
+        rw [login_pass hrl hleft]
+        refine ⟨by cases good <;> rfl, req, Or.inl ⟨good, user, rfl⟩, fun l' hl' => ?_⟩
+        cases hl'
+        refine ⟨hleft, ?_⟩
+        cases good
+        · left; rfl
+        · right; rfl
+  | basic req good =>
+    simp only [step]
+    cases hrl : st.rl with
+    | none =>
+      right
+      rw [basic_none hrl]
+      refine ⟨rfl, req, Or.inr ⟨good, rfl⟩, fun l hl => by cases hl⟩
+    | some l =>
+      by_cases hleft : (l.check req.peer now).1 > 0
+      · left; rw [basic_blocked hrl hleft]
+      · right
+        rw [basic_pass hrl hleft]
+        refine ⟨by cases good <;> rfl, req, Or.inr ⟨good, rfl⟩, fun l' hl' => ?_⟩
+        cases hl'
+        refine ⟨hleft, ?_⟩
+        cases good
+        · left; rfl
+        · right; rfl
+  | request tok =>
+    left
+    simp only [step]
+    unfold checkSession
+    cases st.mem tok with
+    | none => rfl
+    | some s =>
+      simp only
+      split
+      · rfl
+      · split <;> rfl
+  | logout tok => left; rfl
+  | restart => left; rfl
+
+/-- **Other addresses are irrelevant** (frame property of the limiter table, an
+unbounded finite map): whatever one operation does — a login-form or Basic
+attempt from ANOTHER address, right or wrong, a request, a logout, a flood of
+failed logins from any number of fresh addresses — the record of address `a`
+that survives the cleanup at `now`, hence the gate decision for `a` at `now`
+or later, is unchanged.  Only a's own attempts and a restart touch it. -/
+theorem C12_other_addresses_irrelevant (st : St) (now a : Nat) (l : Limiter) (hrl : st.rl = some l) :
+    (∀ (o : Op), (∀ req g u, o = .login req g u → req.peer ≠ a) → (∀ req g, o = .basic req g → req.peer ≠ a) →
+      o ≠ .restart →
+      ∃ l', (step st now o).2.rl = some l' ∧ liveRec now (l'.recs a) = liveRec now (l.recs a) ∧
+        l'.max = l.max ∧ l'.blockDur = l.blockDur) ∧
+    (∀ base n, ¬ (base ≤ a ∧ a < base + n) →
+      ∃ l', (flood st now base n).rl = some l' ∧ liveRec now (l'.recs a) = liveRec now (l.recs a) ∧
+        l'.max = l.max ∧ l'.blockDur = l.blockDur) := by
+  have hclean : liveRec now (cleanup now l.recs a) = liveRec now (l.recs a) := by
+    rw [cleanup_eq]
+    cases l.recs a with
+    | none => rfl
+    | some r =>
+      simp only [liveRec, Option.filter]
+      by_cases h : now ≤ r.untl <;> simp [h, Option.filter]
+  have hchk : ∀ p, (l.check p now).2.recs a = cleanup now l.recs a ∧ (l.check p now).2.max = l.max ∧
+      (l.check p now).2.blockDur = l.blockDur := fun p => ⟨rfl, rfl, rfl⟩
+  constructor
+  · intro o hlogin hbasic hnr
+    cases o with
+    | login req good user =>
+      have hne : a ≠ req.peer := fun e => hlogin req good user rfl e.symm
+      simp only [step, handleLogin_eq]
+      by_cases hleft : (l.check req.peer now).1 > 0
+      · rw [login_blocked hrl hleft]
+        exact ⟨_, rfl, hclean, rfl, rfl⟩
+      · rw [login_pass hrl hleft]
+        cases good with
+        | true =>
+          rw [evalLogin_good]
+          refine ⟨_, rfl, ?_, rfl, rfl⟩
+          simp only [Limiter.remove, FMap.erase, hne, if_false]
+          exact hclean
+        | false =>
+          rw [evalLogin_bad]
+          refine ⟨_, rfl, ?_, ?_, ?_⟩
+          · simp only [Limiter.inc, FMap.set, hne, if_false]
+            exact hclean
+          · simp [Limiter.inc]; rfl
+          · simp [Limiter.inc]; rfl
+    | basic req good =>
+      have hne : a ≠ req.peer := fun e => hbasic req good rfl e.symm
+      simp only [step]
+      by_cases hleft : (l.check req.peer now).1 > 0
+      · rw [basic_blocked hrl hleft]
+        exact ⟨_, rfl, hclean, rfl, rfl⟩
+      · rw [basic_pass hrl hleft]
+        cases good with
+        | true =>
+          refine ⟨_, rfl, ?_, rfl, rfl⟩
+          simp only [Limiter.remove, FMap.erase, hne, if_false]
+          exact hclean
+        | false =>
+          refine ⟨_, rfl, ?_, ?_, ?_⟩
+          · simp only [Bool.false_eq_true, if_false, Limiter.inc, FMap.set, hne]
+            exact hclean
+          · simp [Limiter.inc]; rfl
+          · simp [Limiter.inc]; rfl
+    | request tok =>
+      refine ⟨l, ?_, rfl, rfl, rfl⟩
+      simp only [step]; rw [checkSession_rl, hrl]
+    | logout tok => exact ⟨l, hrl, rfl, rfl, rfl⟩
+    | restart => exact absurd rfl hnr
+  · intro base n hout
+    by_cases hn : n = 0
+    · exact ⟨l, by simp [flood, hrl, hn], rfl, rfl, rfl⟩
+    · refine ⟨l.flood now base n, by simp [flood, hrl, hn], ?_, rfl, rfl⟩
+      simp only [Limiter.flood, hout, if_false]
+      exact hclean
+
+/-- a request that carries an `agh_session` cookie never has a password
+evaluated, whatever its `Authorization` header; one without cookie and without
+parsable Basic credentials is refused without any effect -/
+theorem C12_cookie_shadows_basic (t : Nat) (a : AuthForm) (req : Req) :
+    authOp (.token t) a req = some (.request t) ∧
+    authOp .absent .absent req = none ∧ authOp .absent .unparsed req = none :=
+  ⟨rfl, rfl, rfl⟩
+
 /-- **The minute is anchored, not sliding** (limit 3, block 1 min): wrong
 passwords at 0 s, 50 s, 70 s and 100 s.  The count started at 0 s dies at
 60 s, so the failure at 70 s starts a new one: the failures at 50 s, 70 s and
